@@ -246,22 +246,22 @@ Proof.
 Qed.
 
 (* ------------------------------------------------------------------ crash, re-attach, flush *)
-Notation SZ := SIZEOF_IMB_JOB.
-Notation NJ := IMB_MAX_JOBS.
-Notation MAXB := IMB_MAX_BURST_SIZE.
+Local Notation SZ := SIZEOF_IMB_JOB.
+Local Notation NJ := IMB_MAX_JOBS.
+Local Notation MAXB := IMB_MAX_BURST_SIZE.
 Local Open Scope Z_scope.
 
 Lemma sz_pos : 0 < SZ. Proof. reflexivity. Qed.
 Lemma k_ge1 : 1 <= 8. Proof. lia. Qed.
 Lemma nj_pow2 : NJ = 2 ^ 8. Proof. reflexivity. Qed.
 
-Notation trace := (trace SZ NJ MAXB).
-Notation final := (final SZ NJ MAXB).
-Notation ops_ok := (ops_ok SZ NJ MAXB).
-Notation pending_count := (pending_count SZ NJ MAXB).
-Notation stepr := (stepr SZ NJ MAXB).
-Notation okr := (okr SZ NJ MAXB).
-Notation empty_at := (empty_at SZ NJ).
+Local Notation trace := (trace SZ NJ MAXB).
+Local Notation final := (final SZ NJ MAXB).
+Local Notation ops_ok := (ops_ok SZ NJ MAXB).
+Local Notation pending_count := (pending_count SZ NJ MAXB).
+Local Notation stepr := (stepr SZ NJ MAXB).
+Local Notation okr := (okr SZ NJ MAXB).
+Local Notation empty_at := (empty_at SZ NJ).
 
 (* every API call begins with imb_set_errno(state, 0): the error code left by re-attachment (or by
    anything else) does not influence what a call does *)
